@@ -276,7 +276,6 @@ Definition deviation_witnesses : list (string * list value) := [
   ("~{~A~^,~}", [ints [1; 2; 3]]);                                   (* caret *)
   ("~A~^ more", [VInt 1]);
   ("~D", [VStr (tx "abc")]);                                          (* non-integer printed with escapes *)
-  ("~10,'*D", [VInt 42]);                                             (* quoted parameter that is a directive character *)
   ("~&x", []);                                                        (* fresh line at the start of the output *)
   ("~%~{~&~A~}", [ints [1]]);                                         (* ... and inside a block *)
   ("abc~{~5T~A~}", [ints [1]]);                                       (* column inside a block *)
